@@ -34,6 +34,17 @@ class TStart(StartEvent):
     n: Optional[int] = None
 
 
+class UploadStart(StartEvent):
+    """a start event with a field that happens to be called like an envelope key"""
+    type: str = "pdf"
+    topic: str = ""
+
+
+class RoutedStart(StartEvent):
+    qualified_name: str = "pkg.Thing"
+    n: int = 0
+
+
 class TStop(StopEvent):
     a: int = 0
     note: Optional[str] = None
